@@ -79,7 +79,7 @@ def run_check(check, tier, registry):
         cmd = [PY, "-m", "sim.batch", "--engine", engine, "--check", check, "--seed", str(seed),
                "--first", "0", "--count", str(cspec.get("count", spec["count"])),
                "--workers", str(workers), "--budget", f"{b:.1f}", "--out", workdir, "--tier", tier,
-               "--run-cap", str(cspec.get("run_cap", 60))]
+               "--run-cap", str(cspec.get("run_cap", spec.get("run_cap", 60)))]
         if engine != "twin" and n_entries:
             # shard compiled workers by composition; rotate with the seed
             ents = [(seed * workers + k) % n_entries for k in range(workers)]
